@@ -947,3 +947,72 @@ fn step_stave_orphan_data() {
     kani::cover!(w[0] == 0xA5, "arbitrary lane data");
     core::mem::forget(c);
 }
+
+// =============================================================================================
+// C01 K5: a whole conforming heartbeat frame (two packets) with symbolic free fields => no report.
+// Control flow (ids, flags) is concrete; orbit, bunch crossings, trigger type, lane data, lane
+// status and the active-lane mask are symbolic (fields that must agree share one symbolic value).
+// =============================================================================================
+//@ harness: c01_template_hbf props=C01 tier=quick class=functional covers=1 mem=12 timeout=1500 est=120
+//@ bounds: check all its, one HBF = packet 1 (stop 0, page 0): IHW, TDH (internal trigger), 2 inner data words, TDT packet_done, TDH (later bc), data word, TDT packet_done, no-data TDH; packet 2 (stop 1, page 1): DDW0. Symbolic: 3 x 9 lane data bytes (hit content), the 56 TDT/DDW0 lane status bits, packet offsets (< 2^40), data format {0,2}: ZERO reports
+H!(c01_template_hbf, template_hbf(false));
+//@ harness: c01_template_hbf_rich props=C01 tier=thorough required=no class=functional covers=1 mem=28 timeout=2400 est=600
+//@ bounds: same frame with orbit, bunch crossings and trigger type symbolic as well (exhausts 16 GB: best effort)
+H!(c01_template_hbf_rich, template_hbf(true));
+fn template_hbf(rich: bool) {
+    let mut c = Ctx::new(cfg_of(2));
+    let orbit: u32 = if rich { kani::any() } else { ORBIT };
+    let bc: u16 = if rich { kani::any() } else { BC };
+    kani::assume(bc < 0xd00);
+    let bc2: u16 = if rich { kani::any() } else { BC + 0x100 };
+    kani::assume(bc2 > bc && bc2 <= 0xdeb);
+    let tt_low: u8 = if rich { kani::any() } else { TRIG as u8 }; // trigger type bits 7:0 (bit 4 = PhT)
+    let df: u8 = kani::any();
+    kani::assume(df == 0 || df == 2);
+    let mk_rdh = |stop: u8, page: u16| {
+        let mut b = rdh_bytes(stop, page, df);
+        b[16] = bc as u8; b[17] = (bc >> 8) as u8;
+        b[20] = orbit as u8; b[21] = (orbit >> 8) as u8; b[22] = (orbit >> 16) as u8; b[23] = (orbit >> 24) as u8;
+        b[32] = tt_low;
+        b
+    };
+    let mk_tdh = |no_data: bool, bcv: u16| {
+        let mut f = tdh_conf();
+        f.orbit = orbit;
+        f.bc = bcv;
+        f.no_data = no_data;
+        let mut w = tdh_w(&f);
+        w[0] = tt_low;
+        w
+    };
+    let ihw = W_IHW;
+    let mut d1: [u8; 10] = kani::any();
+    d1[9] = 0x25;
+    let mut d2: [u8; 10] = kani::any();
+    d2[9] = 0x26;
+    let mut d3: [u8; 10] = kani::any();
+    d3[9] = 0x25;
+    // lane status bytes symbolic, the bytes holding reserved bits concrete (their checks must fold)
+    let ls: [u8; 7] = kani::any();
+    let tdt = [ls[0], ls[1], ls[2], ls[3], ls[4], ls[5], ls[6], 0xE0, 0x01, 0xF0];
+    let ddw = [ls[6], ls[5], ls[4], ls[3], ls[2], ls[1], ls[0], 0x00, 0x0A, 0xE4];
+    let p1 = any_pos();
+    crate::vsup::reset();
+    c.set_rdh(&mk_rdh(0, 0), p1);
+    c.feed(&ihw);
+    c.feed(&mk_tdh(false, bc));
+    c.feed(&d1);
+    c.feed(&d2);
+    c.feed(&tdt);
+    c.feed(&mk_tdh(false, bc2));
+    c.feed(&d3);
+    c.feed(&tdt);
+    c.feed(&mk_tdh(true, bc2)); // a no-data TDH (same bc is legal: "not decreasing")
+    let p2 = any_pos();
+    c.set_rdh(&mk_rdh(1, 1), p2); // the closing page of the HBF carries only the DDW0
+    c.feed(&ddw);
+    let o = c.obs();
+    assert!(o.n_err == 0 && o.n_send == 0, "a conforming heartbeat frame was reported");
+    kani::cover!(df == 0 && d1[0] == 0xFF, "data format 0, arbitrary hit byte");
+    core::mem::forget(c);
+}
